@@ -15,6 +15,7 @@ from .core import (
     INT,
     NEG_INF,
     OBJ,
+    OPTINT,
     REAL,
     STR,
     ArrT,
@@ -153,6 +154,12 @@ def _assume_wf(ip, d):
     from .core import H
 
     ip.st.assume(H(ip.st).dq(d.ty.cls, d.t).wf())
+
+
+def _assume_wf_od(ip, d):
+    from .core import H
+
+    ip.st.assume(H(ip.st).od(d.ty.cls, d.t).wf())
 
 
 def dq_append(ip, d, x):
@@ -311,6 +318,7 @@ def od_popitem(ip, d, last=True):
         st.put(cn, "hi", d.t, hi - 1)
     else:
         st.put(cn, "lo", d.t, lo + 1)
+    _assume_wf_od(ip, d)
     return (ip.wrap(k, ci.key), ip.wrap(v, ci.val))
 
 
@@ -326,6 +334,7 @@ def _od_delete_key(ip, d, kt):
     st.put(cn, "kdata", d.t, nd)
     st.put(cn, "hi", d.t, hi - 1)
     st.put(cn, "has", d.t, z3.Store(st.get(cn, "has", d.t), kt, False))
+    _assume_wf_od(ip, d)
 
 
 def od_pop(ip, d, k, *default):
@@ -413,6 +422,7 @@ def fut_set_result(ip, f, v):
         raise_("InvalidStateError", "invalid state")
     ip.st.put("Future", "state", f.t, z3.IntVal(RESULT))
     ip.st.put("Future", "result", f.t, ip.term(v, OBJ))
+    ip.ctx.unit.on_future_resolved(ip, f)
 
 
 def fut_set_exception(ip, f, e):
@@ -613,7 +623,6 @@ def floordiv(ip, a, b):
     # Python floor division; z3 div is Euclidean: agree when b > 0
     if not ip.ctx.branch(b != 0, "div-nonzero"):
         raise_("ZeroDivisionError", "division by zero")
-    q = z3.If(b > 0, a / b, -((-a) / (-b)) if False else z3.If(a % b == 0, a / b, (a / b) - z3.If(b < 0, 0, 0)))
     if ip.st.feasible(b < 0):
         raise Unsupported("floor division by a possibly negative number")
     return Sym(a / b, INT)
@@ -695,6 +704,10 @@ def b_isinstance(ip, x, cls):
     if isinstance(x, Sym):
         if x.ty is INT:
             return "int" in names
+        if x.ty is OPTINT:
+            return Sym(x.t != -1, BOOL) if "int" in names else False
+        if x.ty is REAL:
+            return "float" in names  # symbolic reals stand for non-int float arguments
         if x.ty is BOOL:
             return "bool" in names or "int" in names
         if x.ty is STR:
@@ -729,6 +742,10 @@ def b_min(ip, *args):
 def _minmax(ip, a, b, is_max):
     if I._is_pynum(a) and I._is_pynum(b):
         return max(a, b) if is_max else min(a, b)
+    for x, y in ((a, b), (b, a)):
+        if isinstance(x, float) and x in (float("inf"), float("-inf")) and isinstance(y, Sym):
+            big = x == float("inf")
+            return x if big == is_max else y
     real = any(isinstance(v, float) or (isinstance(v, Sym) and v.ty is REAL) for v in (a, b))
     ty = REAL if real else INT
     ta, tb = ip.term(a, ty), ip.term(b, ty)
@@ -784,7 +801,7 @@ def b_isinf(ip, x):
     if isinstance(x, Sym) and x.ty is INT:
         return False
     if isinstance(x, Sym) and x.ty is REAL:
-        return Sym(z3.Or(x.t == INF, x.t == NEG_INF), BOOL)
+        return False  # symbolic reals are finite (interp.split_real)
     raise Unsupported("isinf")
 
 
@@ -798,6 +815,16 @@ def b_checkpoint_if_cancelled(ip):
 
 def b_cancel_shielded_checkpoint(ip):
     return AwaitableVal("cancel_shielded_checkpoint")
+
+
+def b_super(ip, *a):
+    if a:
+        raise Unsupported("super(args)")
+    f, env = ip.ctx.frames[-1]
+    if f.owner is None:
+        raise Unsupported("super() outside a method")
+    first = (f.node.args.posonlyargs + f.node.args.args)[0].arg
+    return I.SuperVal(f.owner, env.vars[first])
 
 
 def b_deque(ip, *a):
@@ -844,6 +871,7 @@ GLOBALS = {
     "tuple": Builtin("tuple", b_tuple),
     "current_task": Builtin("current_task", b_current_task),
     "deque": Builtin("deque", b_deque),
+    "super": Builtin("super", b_super),
     "set": Builtin("set", b_set),
     "OrderedDict": Builtin("OrderedDict", b_odict),
     "TYPE_CHECKING": False,
